@@ -148,6 +148,7 @@ def run(ctx):
     whole = [w for w in ws if w[1] == "assign" and w[2] == ()]
     ctx.instance(1, {"reset_arm_writes": [[w[1], ".".join(w[2]) or "*"] for w in ws]})
     ok_src = False
+    assign_bbs = set()
     for b in sorted(region):
         for s in disp.stmts(b):
             if s["k"] == "assign" and s["p"]["l"] == sp and s["p"].get("pr") == ["*"]:
@@ -156,7 +157,20 @@ def run(ctx):
                     src = kit.strip_refs(e[2][0])
                     if src[0] == "field" and src[2] == snap:
                         ok_src = True
+                        assign_bbs.add(b)
     ok = bool(whole) and ok_src
+    # ... on every path through the arm (a reset that is skipped under some condition is not a reset)
+    sm = disp.succ_map()
+    leaving = {b for b in region if any(x not in region for x in sm[b])}
+    if ok:
+        skipping = (disp.reachable(arms["Reset"], avoid=assign_bbs) & leaving) - assign_bbs
+        ok_all = not skipping
+        ctx.oblig(ok_all, {"reset": "the assignment is on every path of the arm"}, "must-pass-through")
+        if not ok_all:
+            p = disp.path(arms["Reset"], skipping, avoid=assign_bbs)
+            ctx.violation("reset-conditional", sp_file_line(disp.term(arms["Reset"]).get("sp")),
+                          "the reset arm can finish without assigning the saved state (a path through the arm avoids `*state = self.%s.clone()`%s)"
+                          % (snap, "; lines %s" % disp.path_lines(p) if p else ""))
     ctx.oblig(ok, {"reset": "*state = self.%s.clone()" % snap}, "whole-place assignment from Clone::clone(&saved)")
     if not ok:
         ctx.violation("reset-not-total", sp_file_line(disp.term(arms["Reset"]).get("sp")),
